@@ -127,7 +127,7 @@ func CheckC15(l *Lab, verifDir string) int {
 			}
 		}
 		if r.Status != 200 && p.want != 200 {
-			for _, leak := range []string{"\"sub\"", "\"iss\"", "\"exp\""} {
+			for _, leak := range []string{"\"sub\"", "\"iss\"", "\"exp\"", "forged-user", "leewayuser", "keylen-user", "alexander", "user.name@corp", "generated-user", "someone-else"} {
 				if strings.Contains(string(r.Body), leak) {
 					rep.Violate("C15/claims-disclosed-in-refusal/"+mode, fmt.Sprintf("%s: refusal body contains %s", p.name, leak), detail)
 				}
@@ -316,6 +316,20 @@ func CheckC15(l *Lab, verifDir string) int {
 		add("issuer missing", 403, c15Forge(signed, "", "forged-user", now+3600, nil, nil), "")
 		add("expired -1h", 403, c15Forge(signed, "rdpgw", "forged-user", now-3600, nil, nil), "")
 		add("expired -180s", 403, c15Forge(signed, "rdpgw", "forged-user", now-180, nil, nil), "")
+		for _, gcm := range []struct {
+			name string
+			key  []byte
+			enc  string
+		}{{"A256GCM under the configured 32-byte key", []byte(c15EncKey), "A256GCM"}, {"A128GCM under the first half of the key", []byte(c15EncKey[:16]), "A128GCM"}, {"A128GCM under the second half of the key", []byte(c15EncKey[16:]), "A128GCM"}} {
+			cl := map[string]any{"iss": "rdpgw", "sub": "forged-user", "exp": now + 3600}
+			var pt []byte
+			if signed {
+				pt = []byte(SignHS("HS256", "HS256", []byte(c15SigKey), nil, cl))
+			} else {
+				pt, _ = json.Marshal(cl)
+			}
+			add("content encryption "+gcm.name, 403, EncryptJWEGCM(gcm.key, gcm.enc, pt), "")
+		}
 		add("other encryption key", 403, c15Forge(signed, "rdpgw", "forged-user", now+3600, []byte("0123456789abcdef0123456789abcdef"), nil), "")
 		add("encryption key with swapped halves", 403, c15Forge(signed, "rdpgw", "forged-user", now+3600, []byte(c15EncKey[16:]+c15EncKey[:16]), nil), "")
 		add("PAA signing key as encryption key", 403, c15Forge(signed, "rdpgw", "forged-user", now+3600, []byte(Key32a), nil), "")
